@@ -110,10 +110,17 @@ package stack
 //@   ensures [uniformIndentation C01] old(s.state) != looking && s.state != done && s.state != looking ==> sameslice(s.prefix, old(s.prefix))
 //@   ensures [growOnly C01 C10] len(s.Goroutines) >= old(len(s.Goroutines)) && len(s.Goroutines) <= old(len(s.Goroutines)) + 1 && forall i :: 0 <= i && i < old(len(s.Goroutines)) ==> s.Goroutines[i] == old(s.Goroutines[i])
 
+//@   ensures [raceErrorChangesNoState C08] (old(s.state) == betweenRaceOperations || old(s.state) == betweenRaceGoroutines) && result1 != nil && s.state != done ==> s.state == old(s.state) && s.goroutineIndex == old(s.goroutineIndex) && len(s.Goroutines) == old(len(s.Goroutines)) && forall j :: 0 <= j && j < len(s.Goroutines) ==> s.Goroutines[j].State == old(s.Goroutines[j].State)
+//@   assert after-store Snapshot.Goroutines#2: [headerFields C01] len(s.Goroutines) >= 1 && s.Goroutines[len(s.Goroutines)-1].ID == decval(match[2], len(match[2])) && s.Goroutines[len(s.Goroutines)-1].SleepMin == sleep && s.Goroutines[len(s.Goroutines)-1].SleepMax == sleep && (s.Goroutines[len(s.Goroutines)-1].Locked <==> locked) && (s.Goroutines[len(s.Goroutines)-1].First <==> len(s.Goroutines) == 1) && s.Goroutines[len(s.Goroutines)-1].RaceAddr == 0 && len(s.Goroutines[len(s.Goroutines)-1].Stack.Calls) == 0 && len(s.Goroutines[len(s.Goroutines)-1].State) == len(items[0]) && (forall k :: 0 <= k && k < len(items[0]) ==> s.Goroutines[len(s.Goroutines)-1].State[k] == items[0][k])
+//@   assert after-store Snapshot.Goroutines#3: [raceFirstOperation C08] len(s.Goroutines) == 1 && s.Goroutines[0].ID == decval(match[3], len(match[3])) && s.Goroutines[0].First && (s.Goroutines[0].RaceWrite <==> w) && s.Goroutines[0].RaceAddr == addr
+//@   assert after-store Snapshot.Goroutines#4: [racePreviousOperation C08] len(s.Goroutines) == old(len(s.Goroutines)) + 1 && s.Goroutines[len(s.Goroutines)-1].ID == decval(match[3], len(match[3])) && !s.Goroutines[len(s.Goroutines)-1].First && (s.Goroutines[len(s.Goroutines)-1].RaceWrite <==> w) && s.Goroutines[len(s.Goroutines)-1].RaceAddr == addr
+//@   assert after-store scanningState.goroutineIndex#3: [createdAtSelectsFirstGoroutineWithThatID C08] 0 <= s.goroutineIndex && s.goroutineIndex < len(s.Goroutines) && s.Goroutines[s.goroutineIndex].ID == id && (forall j :: 0 <= j && j < s.goroutineIndex ==> s.Goroutines[j].ID != id) && len(s.Goroutines[s.goroutineIndex].State) == len(match[2])
 //@   loop 0: invariant 1 <= i
 //@   loop 0: decreases len(items) - i
 //@   loop 1: invariant Inv(s) && s.Snapshot == old(s.Snapshot) && !found && (s.state == betweenRaceOperations || s.state == betweenRaceGoroutines) && s.state == old(s.state) && s.Goroutines == old(s.Goroutines)
 //@   loop 1: invariant -1 <= rangeindex && rangeindex < len(s.Goroutines)
+//@   loop 1: invariant [noEarlierGoroutineHasThatID C08] forall j :: 0 <= j && j <= rangeindex ==> s.Goroutines[j].ID != id
+//@   loop 1: invariant [searchChangesNoState C08] forall j :: 0 <= j && j < len(s.Goroutines) ==> s.Goroutines[j].State == old(s.Goroutines[j].State)
 //@   loop 1: decreases len(s.Goroutines) - rangeindex
 
 //@ pred isSp(c int) = c == 9 || c == 32
